@@ -13,6 +13,8 @@ F-c18-dok-partial-index-lists         DOK index lists / masks for fewer than all
 F-c18-einsum-operand-rank-unchecked   einsum accepts an operand with more dimensions than its subscripts
 F-c18-gcxs-ctor-0d-unchecked          GCXS((data, indices, indptr), shape=()): every test on the three arrays sits under len(shape) >= 1.  Region: the contract's
                                       reason is "0-d indices" (shape (), indices not of shape (0, len(data))) and the call returned.  Props/C18: ExcludedZeroDim.
+F-c18-gcxs-ctor-index-dtype-unchecked GCXS((data, indices, indptr), ...) with float `indices` or `indptr`: accepted, the array fails at its first use (TypeError / numba
+                                      TypingError).  Region: the contract's reason is "index dtype" and the call returned.
 
 Retired (repaired in /repo; each witness is a must-pass case of c18.retired_witnesses, and the generators still produce the region):
 F-c18-reshape-several-unknown, F-c18-reshape-unknown-with-zero (999f0e4), F-c18-coo-ctor-0d-unchecked (22a856d), F-c18-gcxs-ctor-unvalidated
@@ -41,6 +43,8 @@ def classify(name, case, msg):
     if msg.startswith("accepted:"):
         if name == "GCXS(triple,shape,ca)" and kind == "ctor-bad" and case.get("np_msg") == "0-d indices" and (case.get("kwargs") or {}).get("shape") == []:
             return "F-c18-gcxs-ctor-0d-unchecked"
+        if name == "GCXS(triple,shape,ca)" and kind == "ctor-bad" and case.get("np_msg") == "index dtype":
+            return "F-c18-gcxs-ctor-index-dtype-unchecked"
         if name == "sparse.einsum" and "operand has more dimensions than subscripts" in msg:
             return "F-c18-einsum-operand-rank-unchecked"
     return None
